@@ -171,6 +171,7 @@ func (o cop) matches(r preq) bool {
 
 type callsSpec struct {
 	ctxCancel bool // a harness thread cancels callsCtx at a point the explorer chooses
+	status    bool // the client has a remote-status function (NewClient over ssh); the status arrives only after every caller has returned
 	callers   [][]cop
 	permute   bool
 	cut       int // -1 none
@@ -201,6 +202,9 @@ func (s callsSpec) String() string {
 	}
 	if s.sink {
 		x += " writer-accepts-after-close"
+	}
+	if s.status {
+		x += " remote-status-function"
 	}
 	return fmt.Sprintf("callers[%s] cut=%d cuterr=%v fw=%d fwEOF=%v%s", strings.Join(cs, " | "), s.cut, s.cutErr, s.fw, s.fwEOF, x)
 }
@@ -237,6 +241,9 @@ func callsScenario(s callsSpec, prop string) explore.Scenario {
 				e.c2s.SinkClosed = s.sink
 				if s.fwEOF {
 					e.c2s.FailErr = io.EOF
+				}
+				if s.status {
+					e.status = &cliStatus{err: fmt.Errorf("remote command exited with status 1")}
 				}
 				replyEnds = map[uint32]int{}
 				e.peer.Hook = func(p *vpeer, r preq) []byte {
@@ -276,6 +283,11 @@ func callsScenario(s callsSpec, prop string) explore.Scenario {
 			if s.after {
 				v, err := cop{kind: "Stat", path: "/after"}.do(c, f)
 				afterRes = callRes{v, err}
+			}
+			if env.status != nil {
+				// the remote command's exit status is the last thing to arrive: nothing before this point may have waited for it
+				vsched.Env("remote.status-arrives", env.status, false, nil)
+				env.status.arrived = true
 			}
 			closeErr = c.Close()
 			waitErr = c.Wait()
